@@ -1,6 +1,6 @@
 (** C07 -- the theorems the check counts.  Only statements + [exact lemma]; proofs live in Proofs07*.v. *)
-From Coq Require Import List Bool Arith NArith.
-From XV Require Import Gen.GenValid07 C07.Spec07 C07.Model07 C07.Proofs07a C07.Proofs07b C07.Proofs07e C07.Proofs07f.
+From Coq Require Import List Bool Arith NArith Permutation.
+From XV Require Import Gen.GenValid07 C07.Spec07 C07.Model07 C07.Proofs07a C07.Proofs07b C07.Proofs07e C07.Proofs07f C07.Spec07a C07.Model07a C07.Proofs07g.
 Import ListNotations.
 
 (** the reference oracle decides the regular language of a content model *)
@@ -82,3 +82,50 @@ Theorem T07_codes_nonfatal : forall e, e <> ModelGaveUp ->
   XMLValid_isWarning (verr_code e) = false.
 Proof. exact codes_nonfatal. Qed.
 Print Assumptions T07_codes_nonfatal.
+
+(** ---- attributes (XML 1.0 section 3.3) ------------------------------------------------------------------
+    [attr_errors sw]: validateAttrValue + the attribute part of scanStartTag + checkIDRefs over all instances of
+    an element type; sw = false is the behaviour repaired by fixes/C07-enum-single-token.patch, sw = true the code
+    as written (finding F25). *)
+Theorem T07_oracle_attrs : forall e defs doc, attrs_validb e defs doc = true <-> attrs_valid e defs doc.
+Proof. exact attrs_validb_correct. Qed.
+Print Assumptions T07_oracle_attrs.
+
+(** repaired code: a validity error is reported iff an attribute constraint is violated (declared, #REQUIRED,
+    #FIXED, value of the declared type, unique IDs, resolved IDREF(S), declared unparsed entities, enumerations),
+    defaults included *)
+Theorem T07_attrs : forall e defs doc, attr_errors false e defs doc = [] <-> attrs_valid e defs doc.
+Proof. exact attrs_correct. Qed.
+Print Assumptions T07_attrs.
+
+Example T07_attrs_nonvacuous :
+  let defs := [mkAD 1 AId DRequired; mkAD 2 AIdRefs DImplied; mkAD 3 (AEnum [TName 1; TNmtok 2]) (DDefault [TNmtok 2])] in
+  attr_errors false (mkEnv [] []) defs [[(2, [TName 8; TName 7]); (1, [TName 7])]; [(1, [TName 8]); (3, [TName 1])]] = [] /\
+  attr_errors false (mkEnv [] []) defs [[(2, [TName 9]); (1, [TName 7])]; [(1, [TName 7])]] = [ReusedIDValue; IDNotDeclared].
+Proof. vm_compute. auto. Qed.
+
+(** code as written: the same, outside the class of F25 (some NOTATION / enumeration value with several tokens) *)
+Theorem T07_attrs_as_written_guarded : forall e defs doc, no_multi_enum defs doc = true ->
+  (attr_errors true e defs doc = [] <-> attrs_valid e defs doc).
+Proof. exact attrs_faithful_guarded. Qed.
+Print Assumptions T07_attrs_as_written_guarded.
+
+(** ... and inside that class the code as written misses a violated constraint:  <!ATTLIST e a1 (t1|t2) #IMPLIED>
+    with a1="t1 t2" is reported valid (VC Enumeration) *)
+Theorem T07_attrs_as_written_refuted :
+  attr_errors true (mkEnv [] []) f25_defs f25_doc = [] /\ ~ attrs_valid (mkEnv [] []) f25_defs f25_doc.
+Proof. exact enum_multi_refuted. Qed.
+Print Assumptions T07_attrs_as_written_refuted.
+
+(** ID uniqueness and IDREF resolution do not depend on the order in which the elements occur (forward
+    references are resolved at the end of the document) *)
+Theorem T07_ids : forall e defs doc doc', Permutation doc doc' ->
+  (attr_errors false e defs doc = [] <-> attr_errors false e defs doc' = []).
+Proof. exact ids_order_independent. Qed.
+Print Assumptions T07_ids.
+
+(** the attributes delivered (specified + defaulted) are the same function of declaration and instance with
+    validation on and off; the implementation side of this is checked on every attribute case of the run *)
+Theorem T07_defaults_independent : forall defs el, delivered true defs el = delivered false defs el.
+Proof. exact defaults_independent. Qed.
+Print Assumptions T07_defaults_independent.
